@@ -11,6 +11,9 @@ structure DSess where
   s : Option Spec.State := none
   scbs : List PutCb := []
   sclosed : Bool := false
+  /-- a plain stream asked to carry a CARv2 (explicit WriteAsCarV1(false)): the inner writer cannot be
+      built, so every Put fires its listeners and then fails, and nothing is ever written -/
+  refuse : Bool := false
 
 def natsDot (l : List Nat) : String := if l.isEmpty then "-" else String.intercalate "." (l.map toString)
 
@@ -23,7 +26,8 @@ def famDOpen (kv : KV) : DSess × String × String :=
   let o := wopts kv
   let o := if KV.getD kv "target" "path" == "stream" then { o with v1 := true } else o
   let roots := parseRoots (KV.getD kv "roots" "nil")
-  ({ o := o, roots := roots, m := { roots := roots } }, "r=ok exists=0 out=-", "r=ok exists=0 out=-")
+  ({ o := o, roots := roots, m := { roots := roots }, refuse := KV.bool kv "sv2" },
+    "r=ok exists=0 out=-", "r=ok exists=0 out=-")
 
 def specOut (se : DSess) : Option Bytes :=
   se.s.map fun st =>
@@ -36,6 +40,18 @@ def famDOp (se : DSess) (fam : String) (kv : KV) : DSess × String × String :=
     else if fam == "dhas" then .has c
     else if fam == "dput" then .put c (KV.bytes kv "d")
     else .close
+  if se.refuse then
+    match op with
+    | .put _ _ =>
+      if se.m.closed then (se, "r=closed fired=- exists=0 out=-", "r=closed fired=- exists=0 out=-") else
+      let (cbs', fired) := fireLoop (se.m.cbs.length + 1) 0 se.m.cbs []
+      let str := s!"r=other fired={natsDot fired} exists=0 out=-"
+      ({ se with m := { se.m with cbs := cbs' } }, str, str)
+    | _ =>
+      let r := se.m.step se.o op
+      let str := s!"r={outStr false r.2.res} fired=- exists=0 out=-"
+      ({ se with m := r.1 }, str, str)
+  else
   let r := se.m.step se.o op
   let mstr := s!"r={outStr false r.2.res} fired={natsDot r.2.fired} {dOutStr r.1.output}"
   -- specification
